@@ -46,6 +46,14 @@ class DataDir:
         h = btc.sha256d(hdr) if key is None else key
         if ver is None:
             ver = struct.unpack('<I', hdr[:4])[0]
+            if os.environ.get('RBP_VERIF_NO_AMBIENT') is None:
+                # first field of a record is the client version that wrote it; status bits beyond those Bitcoin Core defines
+                # (BLOCK_STATUS_RESERVED, anything a later release adds) mean nothing to a parser
+                self._recs = getattr(self, '_recs', 0) + 1
+                if self._recs % 4 == 2:
+                    ver = (259900, 70015, 2 ** 32 - 1, 2 ** 63)[(self._recs // 4) % 4]
+                if self._recs % 6 == 3:
+                    status |= (256, 1 << 12, 1 << 31, 1 << 40)[(self._recs // 6) % 4]
         self.kvs[b'b' + h] = btc.index_record(ver, height, status, ntx, fileno, off, undo, hdr)
         return h
 
